@@ -33,8 +33,21 @@ def run_seq(ctx, n):
     return cases, tie, prop
 
 
+CORPUS = {"bo": ("corpus", "c01_pairs.json"), "settle": ("corpus-settle", "c02_paths.json")}
+
+
 def run_bo(ctx, n, mode):
     rc, cases, err = vlib.harness_cases("c01", ["-seed", str(ctx.seed), "-n", str(n), "-mode", mode], timeout=3000)
+    # the committed corpus runs in every tier: inputs that reach rarely executed blocks of path_intersection.go, harvested once with a
+    # coverage-instrumented scratch build (tools/covermine) from the same generators; judged exactly like the generated cases
+    import os
+    cmode, cfile = CORPUS[mode]
+    cpath = os.path.join(vlib.ROOT, "corpus", cfile)
+    if os.path.exists(cpath) and not getattr(ctx, "replaying", False):
+        rc2, ccases, err2 = vlib.harness_cases("c01", ["-seed", str(ctx.seed), "-n", "100000", "-mode", cmode, "-corpus", cpath], timeout=3000)
+        for c in ccases:
+            c["i"] = 10**6 + c["i"]
+        cases = cases + ccases
     live = [c for c in cases if c["coq"]]
     crashed = [c for c in cases if not c["coq"]]
     rows = vlib.coq_eval_shards("%s-%s-%d" % (ctx.pid, mode, ctx.seed), HEADER, [c["coq"] for c in live], shard=12, wrap="judge_bo", timeout=2400)
@@ -81,13 +94,29 @@ def describe(ctx, c, kind, detail, mode):
     return d
 
 
+def dump_bad(ctx, c, kind, detail):
+    """development aid: VERIF_DUMP_BAD=<file> appends every unlisted failure (used to draft known-finding entries by hand)"""
+    import os
+    f = os.environ.get("VERIF_DUMP_BAD")
+    if f:
+        with open(f, "a") as fh:
+            fh.write(json.dumps(dict(pid=ctx.pid, kind=kind, op=c["desc"].get("op"), rule=c["desc"].get("rule"), P=c["desc"].get("P"), Q=c["desc"].get("Q"),
+                                     panic=detail.get("panic"), expected_filled=detail.get("expected_filled"), fam=c["fam"])) + "\n")
+
+
 def match_known(known, c, kind, detail):
     """A failure is a listed known finding only when every key of the finding's trigger matches exactly."""
     for f in known:
         t = f.get("trigger", {})
         ok = True
         for k, v in t.items():
-            if k == "op":
+            if k == "inputs":
+                # exact inputs: (op, [rule,] P, Q) as recorded
+                ok &= any(e.get("op") == c["desc"].get("op") and e.get("P") == c["desc"].get("P") and e.get("Q") == c["desc"].get("Q")
+                          and ("rule" not in e or e["rule"] == c["desc"].get("rule")) for e in v)
+            elif k == "panic_in":
+                ok &= (detail.get("panic") or "") in v
+            elif k == "op":
                 ok &= c["desc"].get("op") == v
             elif k == "kind":
                 ok &= kind == v
